@@ -16,7 +16,8 @@
      on every tree whose children lie inside their parent, in order and without overlap, the node returned is the root or
      holds the span, and none of its children holds it: it is the lowest node that contains the span.
    NOT PROVED: the source scanners (next_frag, prev_frag, next_find, delimiters), pars(), the computed locations,
-   find_in_loc / find_loc and find_contains_loc with allow_exact other than True: decided by the tokenize-based oracle and
+   that find_in_loc finds a node whenever one lies within the span (only: what it returns does, and is a descendant),
+   find_loc and find_contains_loc with allow_exact other than True: decided by the tokenize-based oracle and
    the brute-force search oracle in py/props/C06.py (partial). *)
 From Coq Require Import List NArith Bool Arith.
 From PF Require Import kernel.PyBase kernel.Text models.Bistr proofs.BistrProofs models.FindLoc proofs.FindLocProofs.
@@ -57,6 +58,10 @@ Theorem C06_find_scan_over_descendants_is_the_scan_over_children : forall a b cs
   scan fuel a b cs = lscan a b cs.
 Proof. exact scan_is_lscan. Qed.
 Print Assumptions C06_find_scan_over_descendants_is_the_scan_over_children.
+
+Theorem C06_find_in_loc_answer_lies_within_the_span : forall a b fuel self x, descend_in fuel a b self = Some x -> within a b x /\ In x (desc self).
+Proof. exact find_in_sound. Qed.
+Print Assumptions C06_find_in_loc_answer_lies_within_the_span.
 
 (* "aé€😀b": widths 1,2,3,4,1 *)
 Example C06_nonvacuous :
